@@ -98,6 +98,12 @@ func (fv *FV) stateEnv(st *State, errs *[]string) *Env {
 			vars[p.Name()] = v.T
 		}
 	}
+	for _, f := range fv.fn.FreeVars {
+		// captured variables of a closure verified on its own: entry values
+		if t, ok := fv.freeVarEntry[f.Name()]; ok {
+			vars[f.Name()] = t
+		}
+	}
 	oldEnv := &Env{fv: fv, st: st, heap: map[string]Term{}, epoch: 0, vars: vars, pkgName: fv.pkgName(), err: errs}
 	env := &Env{fv: fv, st: st, heap: st.heap, epoch: st.epoch, vars: map[string]Term{}, pkgName: fv.pkgName(), err: errs, old: oldEnv}
 	for k, v := range vars {
@@ -386,6 +392,10 @@ func (fv *FV) checkPost(st *State, x *ssa.Return, res []SymVal) {
 		}
 	}
 	for i, c := range fv.spec.Ensures {
+		if strings.HasPrefix(c.Label, "def_") {
+			fv.assume("definitional clause (assumed at call sites, not checked): " + fv.short + " " + c.Label + ": " + c.Text)
+			continue
+		}
 		g := env.Eval(c.E)
 		fv.oblige(st, "post", clauseName(c, i), x.Pos(), g, c.Text)
 	}
@@ -433,6 +443,9 @@ func (fv *FV) frameCheck(st *State, ref Term, root types.Type, idx int, pos toke
 	var errs []string
 	env := fv.stateEnv(st, &errs)
 	name := fieldHeapName(root, idx)
+	if fv.wildMaps()[name] {
+		return
+	}
 	alts := []Term{tNot(fv.allocAtEntry(ref))}
 	for _, a := range fv.spec.Assigns {
 		sel, ok := a.E.(*ESel)
